@@ -10,7 +10,10 @@ TECHNIQUE = ('evaluation-sequence extraction: path-wise order of the generate_ev
              'writer/reader decision tables of one node class extracted by partial evaluation (sa/rules/sC14.Emu): under which flag valuations the code generator pastes an operand\'s C result '
              'besides/more than the one evaluation vs. under which the analysis method made the operand simple, compared over all valuations of the shared flags (type flags pruned with the '
              'flag table of the PyrexTypes classes); order typestate (EMPTY/ASC/DESC/PERM/unknown relative to a source sequence, position tags, keyed lookups) of the lists of temporaries that '
-             'are wrapped around a node in a loop, in every module')
+             'are wrapped around a node in a loop, in every module; '
+             'interpretation of the *source* of tree rewrites / emitters by the checker\'s own evaluator (sa/rules/sC21.MiniPy; nothing of the repository is imported or executed) on complete '
+             'families of small abstract inputs (assignment shapes, augmented-assignment targets, and/or trees, keyword call shapes), the rewritten tree / emitted skeleton evaluated by the checker '
+             'under the node semantics C20-ORDER establishes and compared with the language reference applied to the original statement; iteration polarity of code-generation loops over child lists')
 DECIDES = ('C20-ORDER: for each entry of the order table (binary and boolean operators, conditional expression, comparisons incl. cascades, subscription, slicing, dict item, the three '
            'call node classes, cached method calls, f-string value/spec, display * factor, single/cascaded/parallel/augmented assignment, for-in, raise-from, and the let constructs '
            'EvalWithTempExprNode/LetNode) and every subclass: on every code-generation path the earlier operand is asked for its evaluation code before the later one. '
@@ -26,14 +29,32 @@ DECIDES = ('C20-ORDER: for each entry of the order table (binary and boolean ope
            'operand is evaluated once per paste and operands that did get a temporary run before it. '
            'C20-STACK: for every loop that stacks EvalWithTempExprNode/LetNode wrappers from a list (11 sites in ExprNodes, Nodes, Optimize, ParseTreeTransforms): the evaluation order of the '
            'temporaries (reverse of the wrapping order) is not definitely the reverse of, or a permutation of, the source order of the operands they carry - a list filled while iterating another '
-           'sequence with operands fetched by key (GeneralCallNode.map_to_simple_call_node: declared parameters vs. keyword arguments) must be re-sorted by the recorded source position.')
-NOT_DECIDED = ('temporaries introduced by coercions and by analyse_types (coerce_to_temp etc.) beyond the paste/simple agreement of C20-PASTE (TypecastNode, PyMethodCallNode, JoinedStrNode, YieldExprNode '
+           'sequence with operands fetched by key (GeneralCallNode.map_to_simple_call_node: declared parameters vs. keyword arguments) must be re-sorted by the recorded source position. '
+           'C20-REWRITE: for the 232 chained assignments T1 [= T2 [= T3]] = display of the family (displays of 2-4 items, nested once, tuple / list, a name or an attribute among the items; per link '
+           'every compatible target shape: whole, item by item, starred first / last / middle, nested) the tree PostParse builds (flatten_parallel_assignments, map_starred_assignment, '
+           'eliminate_rhs_duplicates, sort_common_subsequences, the let stacking of _visit_assignment_node) evaluates every right-hand side item exactly once, the temporaries in source order '
+           'among themselves, the items left in the partial assignments in source order among themselves, no temporary before its let, and gives every target the value CPython gives it. '
+           'C20-INPLACE: for 12 augmented-assignment target shapes (name, attribute, subscript, nested twice, primaries that are names or calls) ExpandInplaceOperators makes every call of the '
+           'target and of the right-hand side once, in source order, binds temporaries before use and stores once, last. '
+           'C20-SHORT: for every and/or tree with up to four operands (100 trees incl. result type object / C) and every truth valuation the if/goto skeleton BoolBinopNode / BoolBinopResultNode '
+           'emit evaluates exactly the operands Python evaluates, in order, and yields the value of the same operand. '
+           'C20-LISTDIR: every code-generation loop (23 sites) that requests evaluation / assignment code from the elements of a child list (display items, dict items, constituent and cascaded '
+           'assignments, unpacking targets, default sub-expressions) iterates the list front to back. '
+           'C20-KWMAP: for the 183 calls of the family (3 and 4 declared parameters x positional / keyword split x keyword order x simple / non-simple arguments) map_to_simple_call_node evaluates '
+           'every non-simple argument once, in the order written, and binds every temporary.')
+NOT_DECIDED = ('assignment / call / target shapes outside the families of C20-REWRITE, C20-INPLACE, C20-KWMAP (longer chains, deeper nesting, string unpacking, C struct targets); the relative order of '
+               'temporaries and inline items in flattened assignments, double reads of the primary of an augmented attribute target, and the routing of re-ordered keyword arguments are '
+               'evaluated only by the pending parts C20-REWRITE-XORDER, C20-INPLACE-READONCE, C20-KWMAP-ROUTING (genuine defects FINDING_2..4 of session s4-G5); '
+               'the order of the `refs` list SingleAssignmentNode.unroll hands to unroll_assignments (built by straight-line appends in another method); '
+               'temporaries introduced by coercions and by analyse_types (coerce_to_temp etc.) beyond the paste/simple agreement of C20-PASTE (TypecastNode, PyMethodCallNode, JoinedStrNode, YieldExprNode '
                'exceed the evaluator: info lines); C20-STACK reports only definite disorder - where a list comes from a helper or a parameter its order is not established (info lines); '
                'the relative order of two ascending runs that are concatenated; the order inside helper C functions; short-circuit behaviour beyond the order of the two '
                'operands; rewrites that do not use the let constructs (e.g. argument re-packing in call optimisations, ConstantFolding dropping `[f()] * 0` operands - observed: '
                'f is not called); whether a value established as is_simple() really is side-effect free; generator/closure evaluation order; '
                'rewrites outside Optimize.py (ExpandInplaceOperators and SingleAssignmentNode.unroll were read: they keep source order).')
-ASSUMPTIONS = ['a node constructor call evaluates exactly the sub-trees handed to it; for node classes whose evaluation sequence is extracted the operands are ordered by it, otherwise in '
+ASSUMPTIONS = ['C20-REWRITE / INPLACE / KWMAP: type analysis of operand nodes keeps the operand sub-trees in place (analyse_* / coerce_* are the identity in the interpreted rewrites); '
+               'operand leaves are opaque calls (non-simple), names and literals (simple), attribute reads (side effect, not simple)',
+               'a node constructor call evaluates exactly the sub-trees handed to it; for node classes whose evaluation sequence is extracted the operands are ordered by it, otherwise in '
                'argument order', 'attributes that are not child attributes of any node class (pos, type, entry, constant_result ...) are not sub-trees',
                'the handlers receive their operand lists in source order (args[i] before args[j] for i < j)']
 EXEMPT = {
@@ -94,6 +115,16 @@ MUTATIONS = [
     ('Cython/Compiler/Optimize.py', 'FIX range: LetRefNode for a non-simple bound1 (not reversed) wrapped outside the LetNode of bound2', 'LET-ORDER _transform_range_iteration silent'),
     ('Cython/Compiler/Optimize.py', 'FIX _calculate_constant_seq: `... <= 0 and all(arg.is_literal for arg in sequence_node.args)`', 'C20-DROP silent'),
 ]
+MUTATIONS += [      # fourth round (session s4-G5): patches and verdicts in /verif/mutants/C20/*
+    ('Cython/Compiler/ParseTreeTransforms.py', 'SEED C20c: `for _, temp_ref in duplicates_and_temps[::-1]` -> forward', 'C20-REWRITE _visit_assignment_node:temp-order'),
+    ('Cython/Compiler/ParseTreeTransforms.py', 'sort_common_subsequences dropped / lower_than swapped; LetRefNodes collected with insert(0); attributes treated as simple; starred slice one short; '
+     'starred merge comparison; partial assignments emitted back to front', 'C20-REWRITE temp-before-set / temp-order / once / routing / inline-order'),
+    ('Cython/Compiler/ParseTreeTransforms.py', 'ExpandInplaceOperators: reverse() dropped; [index] + temps; attribute / subscript operand not put into a temporary', 'C20-INPLACE eval-order / eval-once'),
+    ('Cython/Compiler/ExprNodes.py', 'BoolBinopResultNode: sense flipped; BoolBinopNode: next_and/next_or labels swapped; outer labels not restored', 'C20-SHORT'),
+    ('Cython/Compiler/Nodes.py + ExprNodes.py', 'reversed() iteration over stats / lhs_list / key_value_pairs / unpacking targets / subexpr_nodes()', 'C20-LISTDIR (C20-ORDER for the default sub-expression loop)'),
+    ('Cython/Compiler/ExprNodes.py', 'map_to_simple_call_node: `if new_temps: args = final_args` dropped (double evaluation); preceding arguments not moved into temporaries', 'C20-KWMAP once / order'),
+    ('Cython/Compiler/Nodes.py', 'unroll_assignments: `refs[::-1]` -> `refs`', 'MISSED: the list is built in SingleAssignmentNode.unroll by straight-line appends; its order is not established (NOT_DECIDED)'),
+]
 SILENT_EDITS = [   # behaviour-preserving, no new violation
     "DictItemNode: subexprs = ['value', 'key'] (its explicit generate_evaluation_code decides the order)",
     "BinopNode: subexprs as a tuple",
@@ -115,4 +146,11 @@ def run(ctx):
     from ..rules import flatpar
     from ..rules import sC20
     return [pC20.rule_order(ctx), pC20.rule_once(ctx), pC20.rule_let_order(ctx), pC20.rule_drop(ctx), flatpar.rule_flat(ctx),
-            sC20.rule_paste(ctx), sC20.rule_stack(ctx), sC20.rule_hoist(ctx)]
+            sC20.rule_paste(ctx), sC20.rule_stack(ctx), sC20.rule_hoist(ctx),
+            sC20.rule_rewrite(ctx, 'main', floor=200), sC20.rule_inplace(ctx, 'main', floor=10), sC20.rule_short(ctx), sC20.rule_listdir(ctx), sC20.rule_kwmap(ctx, 'main', floor=150)]
+    # pending finding (FINDING_2 of session s4-G5): sC20.rule_rewrite(ctx, 'cross-order', floor=200) -> C20-REWRITE-XORDER reports
+    #   ParseTreeTransforms.PostParse._visit_assignment_node:cross-order on the unmodified tree: `a1, b1 = a2, *s2 = f(), g()` calls g before f.
+    # pending finding (FINDING_3 of session s4-G5): sC20.rule_inplace(ctx, 'read-once', floor=10) -> C20-INPLACE-READONCE reports
+    #   ParseTreeTransforms.ExpandInplaceOperators.visit_InPlaceAssignmentNode:read-once: `o.a.b += 1` reads o.a twice, `f()[g()].a += 1` calls __getitem__ twice.
+    # pending finding (FINDING_4 of session s4-G5): sC20.rule_kwmap(ctx, 'routing', floor=150) -> C20-KWMAP-ROUTING reports
+    #   ExprNodes.GeneralCallNode.map_to_simple_call_node:routing: `cfunc(f0(), p2=f2(), p1=n1)` drops the argument p2 (the C default / a wrong arity is used).
